@@ -231,6 +231,7 @@ type lookupRec struct {
 	closed    bool
 	nilChan   bool
 	wantErr   bool
+	noModel   bool // result elements are not put through the sequential model
 	visible   uint8
 }
 
@@ -702,6 +703,13 @@ func (sc *scenario) check(h *hctx, out *vrt.Outcome) ([]explore.Verdict, string)
 			}
 			if !rec.nilChan && (!rec.closed || len(rec.got) != 0) {
 				add("error-path-channel:"+rec.name, fmt.Sprintf("%s: closed=%v elements=%v", rec.name, rec.closed, rec.got))
+			}
+		} else if rec.noModel {
+			if rec.err != nil {
+				add("lookup-returned-error:"+errShape(rec.err), fmt.Sprintf("%s with options %v returned error %q", rec.name, rec.loBefore, rec.err))
+			}
+			if !rec.closed {
+				add("channel-not-closed", rec.name)
 			}
 		} else {
 			if rec.err != nil {
